@@ -70,6 +70,19 @@ def dependentHistories : List ((Txt × Txt) × (Txt × Txt)) :=
 theorem C22_gen_history_order :
     orderRespects Gen.C22.commitOrder Gen.C22.rollbackOrder dependentHistories = true := by decide +kernel
 
+/-- reviewed allow-list: (function, field) pairs that assign a field of the snapshot structs OUTSIDE every
+    `History.Append` closure in code reachable from Committee.ProcessBlock (calls followed by name inside
+    the package, only along calls that are themselves outside closures).  Each entry is a write that a
+    rollback does not undo; the comments say which are confirmed findings. -/
+def allowedOutsideWrites : List (Txt × Txt) :=
+  [([67,111,109,109,105,116,116,101,101,46,112,114,111,99,101,115,115,67,117,114,114,101,110,116,67,97,110,100,105,100,97,116,101,115], [72,105,115,116,111,114,121,67,97,110,100,105,100,97,116,101,115]) /- Committee.processCurrentCandidates .HistoryCandidates — HistoryCandidates[session] = make(...) before the Append that fills it: an empty inner map survives a rollback of the committee change (not seen as a leaf difference when the map stays empty-vs-absent… it is: reviewed, harmless only if the session key is re-created) -/,
+   ([83,116,97,116,101,46,112,114,111,99,101,115,115,68,101,112,111,115,105,116], [68,101,112,111,115,105,116,79,117,116,112,117,116,115]) /- State.processDeposit .DepositOutputs — known finding C22-deposit-outputs-outside-history -/,
+   ([83,116,97,116,101,46,114,101,103,105,115,116,101,114,67,82], [68,101,112,111,115,105,116,79,117,116,112,117,116,115]) /- State.registerCR .DepositOutputs — known finding C22-deposit-outputs-outside-history -/]
+
+/-- T-gen `NoWritesOutside`: the regenerated list of outside-closure writes to snapshot fields is exactly the
+    reviewed list — a new direct write to snapshot state in the block-processing path breaks this lemma. -/
+theorem C22_gen_no_writes_outside : Gen.C22.outsideWrites = allowedOutsideWrites := by decide +kernel
+
 /-- **Generic theorem**, as C21: a history representing `chain` whose blocks are made of well-paired
     site instances capturing the pre-block state rolls back (within capacity) to exactly the direct
     build.  The committee uses six such histories side by side; the theorem applies to each. -/
